@@ -12,8 +12,6 @@ import (
 	"sync"
 
 	"verif/internal/kit"
-	"verif/internal/load"
-	"verif/internal/props"
 )
 
 // Thorough tier: besides the verdict on /repo, replay the property's rules on variants of the
@@ -94,7 +92,7 @@ func runWitnesses(repo, verif, prop string, rep *kit.Report) {
 	}
 	sort.Slice(cands, func(i, j int) bool { return cands[i].id < cands[j].id })
 	results := make([]witness, len(cands))
-	sem := make(chan struct{}, 4)
+	sem := make(chan struct{}, 8)
 	var wg sync.WaitGroup
 	for i, c := range cands {
 		wg.Add(1)
@@ -127,18 +125,34 @@ func runWitnesses(repo, verif, prop string, rep *kit.Report) {
 				w.Reports = []string{"patch does not apply to the current tree: " + strings.TrimSpace(string(out))}
 				return
 			}
-			prog, err := load.Load(tmp)
+			// analyse the variant in a fresh process (the normalisation state is per process)
+			sc, err := os.MkdirTemp("/tmp", "vwsc")
 			if err != nil {
-				w.Outcome = "load-error"
-				w.Reports = []string{err.Error()}
+				w.Outcome = "not-applicable"
 				return
 			}
-			sub := kit.NewReport(prop, "thorough", 0)
-			props.Get(prop)(prog, sub)
-			for _, o := range sub.Obls {
-				if o.Status == kit.Violated || o.Status == kit.Undecided {
-					w.Reports = append(w.Reports, o.Rule+" · "+o.Construct)
+			defer os.RemoveAll(sc)
+			exe, _ := os.Executable()
+			sub := exec.Command(exe, "-repo", tmp, "-verif", sc, "-property", prop, "-tier", "quick")
+			sub.Env = append(os.Environ(), "VCHECK_NO_WITNESSES=1", "VERIF_TIER=quick", "VCHECK_ANCHORS="+filepath.Join(verif, "anchors.json"))
+			out, _ := sub.CombinedOutput()
+			sawSummary := false
+			for _, line := range strings.Split(string(out), "\n") {
+				if strings.HasPrefix(line, "REPORT ") {
+					l := strings.ReplaceAll(line, tmp+"/", "")
+					if i := strings.Index(l, " at "); i > 0 {
+						l = l[:i]
+					}
+					w.Reports = append(w.Reports, strings.TrimPrefix(l, "REPORT "))
 				}
+				if strings.HasPrefix(line, "property "+prop+" tier") {
+					sawSummary = true
+				}
+			}
+			if !sawSummary {
+				w.Outcome = "load-error"
+				w.Reports = []string{strings.TrimSpace(string(out))}
+				return
 			}
 			if len(w.Reports) > 0 {
 				w.Outcome = "fired"
